@@ -53,11 +53,20 @@ def grouping_key(ctx, res):
         taken = []
         for k, v in zip(payload.keys, payload.values):
             taken += _leaves(lc.expand(k))
-            inner = lc.value_of(v.id) if isinstance(v, ast.Name) and lc.value_of(v.id) is not None else v
-            if isinstance(inner, ast.Dict):
-                for ik, iv in zip(inner.keys, inner.values):
-                    if ik is not None and not (isinstance(ik, ast.Constant) and ik.value == "values"):
-                        taken += _leaves(lc.expand(iv))
+            def entries(d, depth=0):
+                """(key, value) of a dict display with `**other` displays spliced in."""
+                d = lc.value_of(d.id) if isinstance(d, ast.Name) and lc.value_of(d.id) is not None else d
+                if not isinstance(d, ast.Dict) or depth > 4:
+                    return
+                for ik, iv in zip(d.keys, d.values):
+                    if ik is None:
+                        yield from entries(iv, depth + 1)
+                    else:
+                        yield ik, iv
+
+            for ik, iv in entries(v):
+                if not (isinstance(ik, ast.Constant) and ik.value == "values"):
+                    taken += _leaves(lc.expand(iv))
         taken = sorted({t for t in taken if "." in t and not t.startswith(out_name + ".")})
         # where the created data is kept: `<table>[key] = <that call>`
         ctext = lc.text(call)
@@ -80,6 +89,15 @@ def grouping_key(ctx, res):
                     res.find("BaseMerger", "merge_data", f"grouping key does not determine {_role_text(m, roots)}", f"{md.module.relpath}:{getattr(form, 'lineno', st.lineno)}",
                              f"the merged data is created with `{m}` of the first input seen, but the key that decides which inputs share one merged data does not "
                              "contain it: data that differ in it are poured into one data (values of different types concatenated under the first type)")
+                # ... and the other way round: what the key distinguishes about the input data is handed to the creation explicitly
+                # (an attribute left out is guessed by add_data — e.g. the association from the number of values)
+                guessed = sorted({h for h in have if "." in h and h.split(".")[0] in roots
+                                  and not any(h == t or h.startswith(t + ".") or t.startswith(h + ".") for t in taken)})
+                res.inst(f"merge_data: every component of the grouping key `{unparse(form)[:60]}` is handed to add_data", nontrivial=True, ok=not guessed)
+                for g in guessed:
+                    res.find("BaseMerger", "merge_data", f"{_role_text(g, roots)} of the grouping key is not handed to add_data", f"{md.module.relpath}:{call.lineno}",
+                             f"inputs are grouped by `{g}` but the merged data is created without it: add_data falls back on a guess (the association is inferred from "
+                             "the number of values, cells first), so the merged data can get another value than the one its blocks were grouped under")
 
 
 # ---------------------------------------------------------------------- KEEP
@@ -268,6 +286,12 @@ def drape_offsets(ctx, res):
             return kind_of(d, depth + 1) if d is not None else None
         return None
 
+    def arrayish(d):
+        d = _unwrapped(d)
+        while isinstance(d, ast.Subscript):
+            d = _unwrapped(d.value)
+        return isinstance(d, ast.Name) or (isinstance(d, ast.Attribute) and d.attr in _KINDS)
+
     for _ in range(4):
         for nm, ds in lc.defs.items():
             if nm in kind or nm in lc.params or nm in lc.opaque:
@@ -275,6 +299,14 @@ def drape_offsets(ctx, res):
             ks = {kind_of(d) for d in ds}
             if len(ks) == 1 and None not in ks:
                 kind[nm] = ks.pop()
+            elif len(ks - {None}) == 1 and all(arrayish(d) for d in ds):
+                kind[nm] = (ks - {None}).pop()  # re-bound to a shifted copy of itself (`a = a.copy(); ...`): still that array
+
+    def kind_at(nm):
+        if nm in kind:
+            return kind[nm]
+        ks = {kind_of(d) for d in lc.defs.get(nm, [])} - {None}
+        return ks.pop() if len(ks) == 1 else None
 
     def leaf_kind(lf):
         """(kind, 'count' | 'values') of a leaf that reads the prisms / layers, else None."""
@@ -305,6 +337,59 @@ def drape_offsets(ctx, res):
                     break
     if not sites:
         raise AnalysisError("DrapeModelMerger.create_object: the in-place shift of an index column of the prisms / layers not found")
+    # the shifted array is the one that reaches the merged object: an input's whole prisms / layers array handed to a collection
+    # (`<list>.append(a)`) is the very object an in-place shift was applied to (aliases count, a copy made before the shift is another object)
+    from .c16 import _stmt_of, _stmts_in_order
+
+    order = _stmts_in_order(node.body)
+    position = {id(st): i for i, st in enumerate(order)}
+
+    def bindings(nm):
+        """[(position, value)] of the plain assignments to the local, in document order."""
+        out = []
+        for st in order:
+            if isinstance(st, (ast.Assign, ast.AnnAssign)) and st.value is not None:
+                for t in (st.targets if isinstance(st, ast.Assign) else [st.target]):
+                    if isinstance(t, ast.Name) and t.id == nm:
+                        out.append((position[id(st)], st.value))
+        return out
+
+    def rep(nm, at, depth=0):
+        """The local whose object `nm` names at statement position `at`: through the last plain `nm = other` before it."""
+        b = [x for x in bindings(nm) if x[0] < at] or bindings(nm)
+        if depth < 8 and nm not in lc.params and nm not in lc.opaque and b and isinstance(b[-1][1], ast.Name):
+            return rep(b[-1][1].id, b[-1][0], depth + 1)
+        return nm
+
+    def whole_input_array(nm, at, depth=0):
+        """At that position the local holds a whole prisms / layers array of an input (possibly a copy of one), not rows of it or a
+        ghost built from rows."""
+        b = [x for x in bindings(nm) if x[0] < at] or bindings(nm)
+        if depth > 8 or not b or nm in lc.params or nm in lc.opaque:
+            return False
+        d = _unwrapped(b[-1][1])
+        if isinstance(d, ast.Attribute) and d.attr in _KINDS:
+            return True
+        return isinstance(d, ast.Name) and whole_input_array(d.id, b[-1][0], depth + 1)
+
+    shifted_objects = set()
+    for n in ast.walk(node):
+        tg = n.target if isinstance(n, ast.AugAssign) else (n.targets[0] if isinstance(n, ast.Assign) and len(n.targets) == 1 else None)
+        if isinstance(tg, ast.Subscript) and isinstance(tg.value, ast.Name) and any(n is st for _k, _o, st in sites):
+            shifted_objects.add(rep(tg.value.id, position.get(id(n), 0)))
+    for c in ast.walk(node):
+        if isinstance(c, ast.Call) and isinstance(c.func, ast.Attribute) and c.func.attr == "append":
+            at = position.get(id(_stmt_of(node, c)), len(order))
+            for a in c.args:
+                if isinstance(a, ast.Name) and kind_at(a.id) and whole_input_array(a.id, at):
+                    ok = rep(a.id, at) in shifted_objects
+                    ka = kind_at(a.id)
+                    res.inst(f"DrapeModelMerger.create_object: the {ka} array collected for the merged object is the shifted one", nontrivial=True, ok=ok)
+                    if not ok:
+                        res.find("DrapeModelMerger", "create_object", f"the {ka} collected for the merged object are not the shifted array",
+                                 f"{fn.module.relpath}:{c.lineno}",
+                                 f"the index column of an input's {ka} is shifted on another object (a copy whose result is dropped) than the array that is "
+                                 "stacked into the merged object: from the second input on the merged indices are the input-local ones")
     done = set()
     for k, off, st in sites:
         other = "layers" if k == "prisms" else "prisms"
@@ -337,3 +422,40 @@ def drape_offsets(ctx, res):
                          f"{fn.module.relpath}:{getattr(s, 'lineno', st.lineno)}",
                          f"the index column of the {k} refers to the {other}: its offset must advance by the number of {other} already merged (or be read from the "
                          f"{k}' own shifted indices), not by {'the number' if how == 'count' else 'values'} of {bk} — from the second input on the {k} point at the wrong {other}")
+
+
+# ---------------------------------------------------------------------- same inputs for geometry and data
+def same_inputs(ctx, res):
+    """BaseMerger.merge_objects: the sequence of inputs handed to merge_data (whose running offsets advance once per element) is the
+    sequence the geometry was built from by create_object."""
+    mo = ctx.view("BaseMerger.merge_objects")
+    node, lc = prepared(ctx, mo)
+
+    def unwrap(e):
+        e = lc.expand(e)
+        while isinstance(e, ast.Call) and isinstance(e.func, ast.Name) and e.func.id in ("list", "tuple") and len(e.args) == 1 and not e.keywords:
+            e = e.args[0]
+        return e
+
+    def inputs_arg(call, spec, index):
+        fn = ctx.p.func(spec)
+        names = fn.params[1:] if fn.kind in ("method", "classmethod") else fn.params
+        if index < len(call.args) and not any(isinstance(a, ast.Starred) for a in call.args[: index + 1]):
+            return call.args[index]
+        return next((k.value for k in call.keywords if index < len(names) and k.arg == names[index]), None)
+
+    made = [c for c in ast.walk(node) if isinstance(c, ast.Call) and isinstance(c.func, ast.Attribute) and c.func.attr == "create_object"
+            and isinstance(c.func.value, ast.Name) and c.func.value.id in ("cls", "self")]
+    filled = [c for c in ast.walk(node) if isinstance(c, ast.Call) and isinstance(c.func, ast.Attribute) and c.func.attr == "merge_data"
+              and isinstance(c.func.value, ast.Name) and c.func.value.id in ("cls", "self")]
+    if not made or not filled:
+        raise AnalysisError("BaseMerger.merge_objects: the calls of create_object and merge_data not found")
+    for g in made:
+        for d in filled:
+            a, b = inputs_arg(g, "BaseMerger.create_object", 1), inputs_arg(d, "BaseMerger.merge_data", 1)
+            ok = a is not None and b is not None and unparse(unwrap(a)) == unparse(unwrap(b))
+            res.inst("merge_objects: merge_data runs over the inputs create_object built the geometry from", nontrivial=True, ok=ok)
+            if not ok:
+                res.find("BaseMerger", "merge_objects", "merge_data is handed another sequence of inputs than create_object", f"{mo.module.relpath}:{d.lineno}",
+                         "the running vertex / cell offsets of merge_data advance once per input it is given; the geometry holds the vertices / cells of ALL "
+                         "the inputs handed to create_object: with a filtered or re-ordered list the blocks of the later inputs land on the wrong rows")
